@@ -1,6 +1,1118 @@
-//! C04 -- (stub; see DESIGN.md section 5)
-use crate::util::Args;
+//! C04: `boxworks_knuthplass::LineBreaker::break_line_single_attempt` -- bindings F and T.
+//!
+//! Every subcommand builds real boxworks horizontal lists, calls the real breaker with a recording
+//! `debug::Logger` and writes one call event per call (see specs/Trace_KnuthPlass.tla):
+//!
+//! ```json
+//! {"fn":"kp","items":[{"k":"box","w":..}, {"k":"kern","w":..,"x":0|1},
+//!                     {"k":"glue","w":..,"st":..,"sto":0..3,"sh":..,"sho":0..3}, {"k":"pen","p":..},
+//!                     {"k":"disc","pre":..,"npre":..,"post":..,"npost":..,"rep":..}],
+//!  "lw":[..], "tol":.., "es":.., "final":bool, "ls":{glue}, "rs":{glue},
+//!  "lp":..,"hp":..,"ehp":..,"dhd":..,"fhd":..,"adj":..,"loose":..,
+//!  "res":{"k":"none"} | {"k":"brk","brk":[0-based element indices]},     or "panic":[file,msg]
+//!  "log":[{"t":"fb",..} | {"t":"an",..}], "sel": node index | -1}
+//! ```
+//!
+//! `items` are the *inputs* with character widths resolved through the same `FontRepo` the breaker
+//! is given and the widths of discretionary lists summed.  No expected value is computed here:
+//! the TLA+ specification recomputes legal breaks, line material, badness, demerits and the
+//! optimum from the inputs.
+//!
+//! `c04-goldens` replays the repository's golden paragraphs (broken by real TeX) through
+//! `break_line` and pairs every feasible break the logger reports with the numbers of TeX's own
+//! `\tracingparagraphs` log (testdata/*_log.txt); those `fn = "line"` events put the
+//! *specification* on trial.
+use crate::util::{catch, quiet_panics, Args, Out, Rng};
+use boxworks::ds;
+use boxworks::FontRepo;
+use boxworks_knuthplass as kp;
+use common::{GlueOrder, Scaled};
+use serde_json::{json, Map, Value};
+use std::collections::{HashMap, HashSet};
 
-pub fn dispatch(_cmd: &str, _args: &Args) -> Option<i32> {
-    None
+pub fn dispatch(cmd: &str, args: &Args) -> Option<i32> {
+    Some(match cmd {
+        "c04-rand" => random(args),
+        "c04-exh" => exhaustive(args),
+        "c04-sweep" => sweep(args),
+        "c04-replay" => replay(args),
+        "c04-goldens" => goldens(args),
+        _ => return None,
+    })
+}
+
+// ------------------------------------------------------------------------------------------
+// fonts, lists
+// ------------------------------------------------------------------------------------------
+
+/// Font 7: a table filled while the list is built (one code point per character node).
+#[derive(Default)]
+struct Fonts {
+    widths: HashMap<char, i32>,
+}
+
+impl Fonts {
+    fn new_char(&mut self, w: i32) -> ds::Char {
+        let c = char::from_u32(0x4E00 + self.widths.len() as u32).unwrap();
+        self.widths.insert(c, w);
+        ds::Char { char: c, font: 7 }
+    }
+}
+
+impl FontRepo for Fonts {
+    fn width(&self, c: char, _font: u32) -> Option<Scaled> {
+        self.widths.get(&c).map(|w| Scaled(*w))
+    }
+    fn height(&self, _c: char, _font: u32) -> Option<Scaled> {
+        Some(Scaled(0))
+    }
+    fn depth(&self, _c: char, _font: u32) -> Option<Scaled> {
+        Some(Scaled(0))
+    }
+}
+
+struct NoHyphenation;
+impl boxworks::Hyphenator for NoHyphenation {
+    fn hyphenate(&self, _list: &mut Vec<ds::Horizontal>) {}
+}
+
+fn order_of(o: i64) -> GlueOrder {
+    match o {
+        0 => GlueOrder::Normal,
+        1 => GlueOrder::Fil,
+        2 => GlueOrder::Fill,
+        3 => GlueOrder::Filll,
+        _ => panic!("order {o}"),
+    }
+}
+
+fn order_num(o: GlueOrder) -> i64 {
+    match o {
+        GlueOrder::Normal => 0,
+        GlueOrder::Fil => 1,
+        GlueOrder::Fill => 2,
+        GlueOrder::Filll => 3,
+    }
+}
+
+fn i(v: &Value, k: &str) -> i64 {
+    v.get(k).and_then(|x| x.as_i64()).unwrap_or(0)
+}
+
+fn glue_of(v: &Value) -> common::Glue {
+    common::Glue {
+        width: Scaled(i(v, "w") as i32),
+        stretch: Scaled(i(v, "st") as i32),
+        stretch_order: order_of(i(v, "sto")),
+        shrink: Scaled(i(v, "sh") as i32),
+        shrink_order: order_of(i(v, "sho")),
+    }
+}
+
+fn glue_json(g: &common::Glue) -> Value {
+    json!({"w": g.width.0, "st": g.stretch.0, "sto": order_num(g.stretch_order),
+           "sh": g.shrink.0, "sho": order_num(g.shrink_order)})
+}
+
+fn boxed(fonts: &mut Fonts, kind: &str, w: i32) -> ds::Horizontal {
+    match kind {
+        "rule" => ds::Rule { width: Scaled(w), height: Scaled(1), depth: Scaled(0) }.into(),
+        "hbox" => ds::HBox { width: Scaled(w), ..Default::default() }.into(),
+        "vbox" => ds::VBox { width: Scaled(w), ..Default::default() }.into(),
+        "lig" => ds::Ligature {
+            char: fonts.new_char(w).char,
+            font: 7,
+            original_chars: "ff".into(),
+            includes_left_boundary: false,
+            includes_right_boundary: false,
+        }
+        .into(),
+        _ => fonts.new_char(w).into(),
+    }
+}
+
+fn disc_elems(fonts: &mut Fonts, ws: &[Value]) -> Vec<ds::DiscretionaryElem> {
+    ws.iter()
+        .enumerate()
+        .map(|(n, w)| {
+            let w = w.as_i64().unwrap() as i32;
+            match n % 3 {
+                0 => ds::DiscretionaryElem::Char(fonts.new_char(w)),
+                1 => ds::DiscretionaryElem::Kern(ds::Kern { width: Scaled(w), kind: ds::KernKind::Normal }),
+                _ => ds::DiscretionaryElem::Rule(ds::Rule { width: Scaled(w), height: Scaled(1), depth: Scaled(0) }),
+            }
+        })
+        .collect()
+}
+
+/// The real list for the items of an instance description.
+fn build_list(items: &[Value], fonts: &mut Fonts) -> Vec<ds::Horizontal> {
+    let mut list = vec![];
+    for it in items {
+        let k = it["k"].as_str().unwrap();
+        list.push(match k {
+            "box" => boxed(fonts, it.get("bk").and_then(|x| x.as_str()).unwrap_or("char"), i(it, "w") as i32),
+            "kern" => ds::Kern {
+                width: Scaled(i(it, "w") as i32),
+                kind: if i(it, "x") == 1 {
+                    ds::KernKind::Explicit
+                } else {
+                    match it.get("kk").and_then(|x| x.as_str()).unwrap_or("normal") {
+                        "accent" => ds::KernKind::Accent,
+                        "math" => ds::KernKind::Math,
+                        _ => ds::KernKind::Normal,
+                    }
+                },
+            }
+            .into(),
+            "glue" => ds::Glue { kind: ds::GlueKind::Normal, value: glue_of(it) }.into(),
+            "pen" => ds::Penalty(i(it, "p") as i32).into(),
+            "disc" => {
+                let empty = vec![];
+                let pre = it.get("prel").and_then(|x| x.as_array()).unwrap_or(&empty);
+                let post = it.get("postl").and_then(|x| x.as_array()).unwrap_or(&empty);
+                ds::Discretionary {
+                    pre_break: disc_elems(fonts, pre),
+                    post_break: disc_elems(fonts, post),
+                    replace_count: i(it, "rep") as u32,
+                }
+                .into()
+            }
+            _ => panic!("item kind {k}"),
+        });
+    }
+    list
+}
+
+/// Normalise an instance description: the derived fields of discretionaries.
+fn resolve(inst: &mut Value) {
+    for it in inst["items"].as_array_mut().unwrap() {
+        if it["k"] == "disc" {
+            let sum = |v: &Value| v.as_array().map(|a| a.iter().map(|x| x.as_i64().unwrap()).sum::<i64>()).unwrap_or(0);
+            let len = |v: &Value| v.as_array().map(|a| a.len()).unwrap_or(0);
+            let (pre, npre, post, npost) = (sum(&it["prel"]), len(&it["prel"]), sum(&it["postl"]), len(&it["postl"]));
+            let m = it.as_object_mut().unwrap();
+            m.insert("pre".into(), json!(pre));
+            m.insert("npre".into(), json!(npre));
+            m.insert("post".into(), json!(post));
+            m.insert("npost".into(), json!(npost));
+        }
+    }
+}
+
+// ------------------------------------------------------------------------------------------
+// the call
+// ------------------------------------------------------------------------------------------
+
+#[derive(Default)]
+struct Recorder {
+    log: Vec<Value>,
+    elem: usize,
+    sel: i64,
+}
+
+impl kp::debug::Logger for Recorder {
+    fn log_attempt(&mut self, _attempt: kp::debug::Attempt) {}
+    fn log_feasible_breakpoint(&mut self, _list: &[ds::Horizontal], fb: kp::debug::FeasibleBreakpoint) {
+        self.elem = fb.elem_index;
+        self.log.push(json!({"t": "fb", "i": fb.elem_index, "b": fb.badness, "p": fb.penalty, "d": fb.demerits,
+            "prev": fb.previous_node_index, "art": fb.artificial_demerits}));
+    }
+    fn log_new_active_node(&mut self, an: kp::debug::NewActiveNode) {
+        self.log.push(json!({"t": "an", "i": self.elem, "n": an.node_index, "ln": an.line_number,
+            "fc": an.fitness_class, "hy": an.hyphenated, "td": an.total_demerits,
+            "prev": an.previous_node_index, "art": an.artificial_demerits}));
+    }
+    fn log_selected_node(&mut self, node_index: usize) {
+        self.sel = node_index as i64;
+    }
+}
+
+fn params_of(inst: &Value) -> kp::Params {
+    kp::Params {
+        adj_demerits: i(inst, "adj") as i32,
+        double_hyphen_demerits: i(inst, "dhd") as i32,
+        final_hyphen_demerits: i(inst, "fhd") as i32,
+        hyphen_penalty: i(inst, "hp") as i32,
+        ex_hyphen_penalty: i(inst, "ehp") as i32,
+        line_penalty: i(inst, "lp") as i32,
+        looseness: i(inst, "loose") as i32,
+        left_skip: glue_of(&inst["ls"]),
+        right_skip: glue_of(&inst["rs"]),
+        // not read by a single pass: the caller passes tolerance and emergency stretch explicitly
+        emergency_stretch: Scaled(i(inst, "es") as i32),
+        tolerance: i(inst, "tol") as i32,
+        pre_tolerance: i(inst, "tol") as i32,
+        ..kp::Params::plain_tex_defaults()
+    }
+}
+
+/// Run the real breaker on an instance description; the event is the description plus the outcome.
+fn run_instance(inst: &Value) -> Value {
+    let mut fonts = Fonts::default();
+    let list = build_list(inst["items"].as_array().unwrap(), &mut fonts);
+    let params = params_of(inst);
+    let lw: Vec<Scaled> = inst["lw"].as_array().unwrap().iter().map(|x| Scaled(x.as_i64().unwrap() as i32)).collect();
+    let mut rec = Recorder { sel: -1, ..Default::default() };
+    let tol = i(inst, "tol") as i32;
+    let es = Scaled(i(inst, "es") as i32);
+    let fin = inst["final"].as_bool().unwrap_or(false);
+    let r = {
+        let mut lb = kp::LineBreaker {
+            params: &params,
+            line_widths: &lw,
+            line_indents: &[],
+            debug_logger: Some(&mut rec),
+            hyphenator: &NoHyphenation,
+        };
+        catch(|| lb.break_line_single_attempt(&list, &fonts, tol, es, fin))
+    };
+    let mut ev: Map<String, Value> = inst.as_object().unwrap().clone();
+    ev.insert("fn".into(), json!("kp"));
+    match r {
+        Ok(None) => {
+            ev.insert("res".into(), json!({"k": "none"}));
+        }
+        Ok(Some(v)) => {
+            ev.insert("res".into(), json!({"k": "brk", "brk": v}));
+        }
+        Err((file, msg)) => {
+            ev.insert("panic".into(), json!([file, msg]));
+        }
+    }
+    ev.insert("log".into(), Value::Array(rec.log));
+    ev.insert("sel".into(), json!(rec.sel));
+    Value::Object(ev)
+}
+
+#[derive(Default)]
+struct Stats {
+    n: u64,
+    nontrivial: u64,
+    solved: u64,
+    none: u64,
+    panics: u64,
+    max_nodes: usize,
+    max_items: usize,
+    kinds: HashMap<String, u64>,
+    seen: HashSet<u64>,
+}
+
+impl Stats {
+    /// Returns false if the instance was already run.
+    fn fresh(&mut self, inst: &Value) -> bool {
+        use std::hash::{Hash, Hasher};
+        let mut h = std::collections::hash_map::DefaultHasher::new();
+        inst.to_string().hash(&mut h);
+        self.seen.insert(h.finish())
+    }
+    fn add(&mut self, ev: &Value) {
+        self.n += 1;
+        let log = ev["log"].as_array().unwrap();
+        let nodes = log.iter().filter(|r| r["t"] == "an").count();
+        let places: HashSet<i64> = log.iter().filter(|r| r["t"] == "fb").map(|r| r["i"].as_i64().unwrap()).collect();
+        self.max_nodes = self.max_nodes.max(nodes);
+        self.max_items = self.max_items.max(ev["items"].as_array().unwrap().len());
+        if ev.get("panic").is_some() {
+            self.panics += 1;
+        } else if ev["res"]["k"] == "brk" {
+            self.solved += 1;
+            // the breaker saw feasible breaks at three or more places (two besides the end) and kept
+            // at least three nodes: there was something to choose
+            if places.len() >= 3 && nodes >= 3 {
+                self.nontrivial += 1;
+            }
+        } else {
+            self.none += 1;
+        }
+        for it in ev["items"].as_array().unwrap() {
+            *self.kinds.entry(it["k"].as_str().unwrap().to_string()).or_default() += 1;
+        }
+    }
+    fn write(&self, args: &Args, gen: &str) {
+        if let Some(p) = args.str("stats") {
+            let v = json!({"n": self.n, "distinct": self.seen.len(), "nontrivial": self.nontrivial, "solved": self.solved,
+                "none": self.none, "panics": self.panics, "most_nodes": self.max_nodes, "longest_list": self.max_items,
+                "item_kinds": self.kinds, "gen": gen});
+            std::fs::write(p, v.to_string()).expect("write stats");
+        }
+    }
+}
+
+// ------------------------------------------------------------------------------------------
+// instance descriptions
+// ------------------------------------------------------------------------------------------
+
+fn bx(w: i64) -> Value {
+    json!({"k": "box", "w": w})
+}
+fn gl(w: i64, st: i64, sto: i64, sh: i64) -> Value {
+    json!({"k": "glue", "w": w, "st": st, "sto": sto, "sh": sh, "sho": 0})
+}
+fn pn(p: i64) -> Value {
+    json!({"k": "pen", "p": p})
+}
+fn kx(w: i64) -> Value {
+    json!({"k": "kern", "w": w, "x": 1})
+}
+fn kf(w: i64) -> Value {
+    json!({"k": "kern", "w": w, "x": 0})
+}
+fn dc(prel: &[i64], postl: &[i64], rep: i64) -> Value {
+    json!({"k": "disc", "prel": prel, "postl": postl, "rep": rep})
+}
+fn zero_glue() -> Value {
+    json!({"w": 0, "st": 0, "sto": 0, "sh": 0, "sho": 0})
+}
+
+/// May the item stand in the replacement run of a discretionary?
+fn replaceable(it: &Value) -> bool {
+    it["k"] == "box" || it["k"] == "kern"
+}
+
+fn well_formed(items: &[Value]) -> bool {
+    items.iter().enumerate().all(|(a, it)| {
+        if it["k"] != "disc" {
+            return true;
+        }
+        let rep = i(it, "rep") as usize;
+        a + rep < items.len() && (a + 1..=a + rep).all(|j| replaceable(&items[j]))
+    })
+}
+
+fn instance(items: Vec<Value>, lw: &[i64], tol: i64, adj: i64, loose: i64, fin: bool) -> Value {
+    let mut v = json!({"items": items, "lw": lw, "tol": tol, "es": 0, "final": fin, "ls": zero_glue(), "rs": zero_glue(),
+        "lp": 10, "hp": 50, "ehp": 30, "dhd": 10000, "fhd": 5000, "adj": adj, "loose": loose});
+    resolve(&mut v);
+    v
+}
+
+/// The instances of the TLC model (MC_KnuthPlass): every well-formed list of at most `maxlen` items
+/// over the model's alphabet, with and without the paragraph tail, every width sequence, every
+/// parameter set.
+fn exhaustive(args: &Args) -> i32 {
+    quiet_panics();
+    let maxlen: usize = args.num("maxlen", 3);
+    let level: u32 = args.num("level", 0);
+    let mut out = Out::new(args.str("out"));
+    let mut alpha = vec![bx(3), bx(2), gl(1, 2, 0, 1), pn(-10000), dc(&[1], &[], 0), kx(1)];
+    let mut widths: Vec<Vec<i64>> = vec![vec![7], vec![5, 7], vec![7, 5, 4]];
+    // (tol, adj, loose, final)
+    let mut pars: Vec<(i64, i64, i64, bool)> = vec![(10000, 10000, 0, false), (200, 500, 0, false), (10000, 10000, 1, false)];
+    if level >= 1 {
+        alpha.extend([pn(50), dc(&[1], &[1], 1), gl(1, -1, 0, 0), kf(-2)]);
+        widths.push(vec![4, 9]);
+        pars.extend([(10000, 0, -1, true), (99, -3000, 0, false), (10000, 10000, -1, false)]);
+    }
+    let tails: Vec<Vec<Value>> = vec![vec![], vec![pn(10000), gl(0, 1, 1, 0)]];
+    let mut st = Stats::default();
+    let mut idx = vec![0usize; 0];
+    loop {
+        let body: Vec<Value> = idx.iter().map(|&k| alpha[k].clone()).collect();
+        for tail in &tails {
+            let mut items = body.clone();
+            items.extend(tail.iter().cloned());
+            if !well_formed(&items) {
+                continue;
+            }
+            for w in &widths {
+                for &(tol, adj, loose, fin) in &pars {
+                    let inst = instance(items.clone(), w, tol, adj, loose, fin);
+                    let ev = run_instance(&inst);
+                    st.fresh(&inst);
+                    st.add(&ev);
+                    out.line(&ev);
+                }
+            }
+        }
+        // next list in length-lexicographic order
+        let mut p = idx.len();
+        loop {
+            if p == 0 {
+                idx = vec![0; idx.len() + 1];
+                break;
+            }
+            p -= 1;
+            if idx[p] + 1 < alpha.len() {
+                idx[p] += 1;
+                for q in idx.iter_mut().skip(p + 1) {
+                    *q = 0;
+                }
+                break;
+            }
+        }
+        if idx.len() > maxlen {
+            break;
+        }
+    }
+    out.flush();
+    st.write(args, &format!("exhaustive maxlen={maxlen} level={level}"));
+    eprintln!("c04-exh: {} events, {} solved, {} non-trivial, {} panics", st.n, st.solved, st.nontrivial, st.panics);
+    0
+}
+
+/// Badness sweep: two-line paragraphs whose first line has a chosen ratio r = 297 t / s of
+/// shortfall (or excess) t to stretchability (shrinkability) s, for every r from 0 to 1300 -- the
+/// whole domain of TeX's badness function (108) below inf_bad, on both sides -- under tolerances
+/// from a pool, plus the large-dimension branches of 108.  Inputs only: the specification says
+/// what badness, fitness class and demerits each line has.
+fn sweep(args: &Args) -> i32 {
+    quiet_panics();
+    let step: i64 = args.num("step", 1);
+    let mut out = Out::new(args.str("out"));
+    let mut st = Stats::default();
+    let tols: [i64; 6] = [10000, 12, 13, 99, 100, 200];
+    let mut emit = |st: &mut Stats, out: &mut Out, t: i64, s: i64, stretch: bool, tol: i64, n: i64| {
+        // line 1 = box glue box, broken at the second glue; the glue carries all of s
+        let (w1, g, w2) = (5, 2, t + 7);
+        let nat = w1 + g + w2;
+        let glue = if stretch { gl(g, s, 0, 1) } else { gl(g, 1, 0, s) };
+        let items = vec![bx(w1), glue, bx(w2), gl(1, 0, 0, 0), bx(4), pn(10000), gl(0, 1, 1, 0)];
+        let lw = if stretch { nat + t } else { nat - t };
+        if lw <= 0 {
+            return;
+        }
+        let mut inst = instance(items, &[lw, lw + 50], tol, if n % 2 == 0 { 10000 } else { 37 }, 0, false);
+        inst["lp"] = json!(if n % 3 == 0 { 0 } else { 10 });
+        let ev = run_instance(&inst);
+        st.fresh(&inst);
+        st.add(&ev);
+        out.line(&ev);
+    };
+    let mut n = 0i64;
+    let mut r = 0i64;
+    while r <= 1300 {
+        for stretch in [true, false] {
+            // s = 297 m, t = r m: (297 t) div s = r exactly
+            let m = 1 + (r % 7);
+            // once with every line feasible (the fitness class of the line is logged), once under a
+            // tolerance from the pool (the feasibility threshold)
+            emit(&mut st, &mut out, r * m, 297 * m, stretch, 10000, n);
+            emit(&mut st, &mut out, r * m, 297 * m, stretch, tols[1 + (n % 5) as usize], n + 1);
+            n += 1;
+        }
+        r += step;
+    }
+    // the branches of 108 for large dimensions, and zero / negative stretchability
+    for &t in &[7230584i64, 7230585, 10_000_000, 200_000_000] {
+        for &s in &[1i64, 1663496, 1663497, 1663498, 10_000_000, 100_000_000] {
+            for stretch in [true, false] {
+                emit(&mut st, &mut out, t, s, stretch, 10000, n);
+                n += 1;
+            }
+        }
+    }
+    for &t in &[0i64, 1, 5] {
+        for &s in &[0i64, 1] {
+            for stretch in [true, false] {
+                emit(&mut st, &mut out, t, s, stretch, 10000, n);
+                n += 1;
+            }
+        }
+    }
+    out.flush();
+    st.write(args, &format!("badness sweep step={step}"));
+    eprintln!("c04-sweep: {} events, {} solved, {} panics", st.n, st.solved, st.panics);
+    0
+}
+
+/// A random paragraph: words of boxes (with discretionaries and font kerns inside) separated by
+/// glue, penalties, explicit kerns and combinations of them; line widths around a fraction of the
+/// natural width; parameters from pools that contain the boundary values of the algorithm.
+fn gen_instance(rng: &mut Rng, max_breaks: usize) -> Value {
+    let u: i64 = *rng.pick(&[1, 1, 1, 2, 7, 100, 1000, 65536, 65536, 300000]);
+    let neg = rng.chance(1, 10); // negative widths allowed in this instance
+    let inf_glue = rng.chance(1, 8);
+    let box_kinds = ["char", "char", "char", "lig", "rule", "hbox", "vbox"];
+    let mut items: Vec<Value> = vec![];
+    let mut breaks = 0usize; // upper bound on the number of legal breakpoints (by item kind)
+    let nwords = rng.range(1, 6);
+    let mk_glue = |rng: &mut Rng| {
+        let w = rng.range(if neg { -2 } else { 0 }, 4) * u;
+        let sto = if inf_glue && rng.chance(1, 3) { rng.range(1, 3) } else { 0 };
+        let st = if neg && rng.chance(1, 6) { -rng.range(1, 2) * u } else { rng.range(0, 5) * u };
+        let sh = rng.range(0, 3) * u;
+        let sho = if rng.chance(1, 30) { 1 } else { 0 };
+        json!({"k": "glue", "w": w, "st": st, "sto": sto, "sh": sh, "sho": sho})
+    };
+    let pen_pool: [i64; 14] = [0, 0, 50, 100, -50, -100, 500, 1000, -1000, 3000, 9999, 10000, -10000, -10001];
+    for wd in 0..nwords {
+        // a word
+        let nb = rng.range(1, 3);
+        for b in 0..nb {
+            let lo = if neg && rng.chance(1, 4) { -2 } else { 1 };
+            let w = rng.range(lo, 6) * u;
+            let mut it = bx(w);
+            it.as_object_mut().unwrap().insert("bk".into(), json!(*rng.pick(&box_kinds)));
+            items.push(it);
+            if b + 1 < nb {
+                match rng.below(8) {
+                    0 | 1 => {
+                        // a discretionary between two boxes; it may replace the next box
+                        let npre = rng.range(0, 2);
+                        let npost = rng.range(0, 2);
+                        let prel: Vec<i64> = (0..npre).map(|_| rng.range(0, 2) * u).collect();
+                        let postl: Vec<i64> = (0..npost).map(|_| rng.range(0, 2) * u).collect();
+                        let rep = if rng.chance(1, 3) { 1 } else { 0 };
+                        items.push(dc(&prel, &postl, rep));
+                        breaks += 1;
+                    }
+                    2 => {
+                        let mut k = kf(rng.range(-1, 1) * u);
+                        k.as_object_mut().unwrap().insert("kk".into(), json!(*rng.pick(&["normal", "accent", "math"])));
+                        items.push(k);
+                    }
+                    3 if rng.chance(1, 3) => {
+                        items.push(pn(*rng.pick(&pen_pool)));
+                        breaks += 1;
+                    }
+                    _ => {}
+                }
+            }
+        }
+        if wd + 1 == nwords {
+            break;
+        }
+        // a separator
+        match rng.below(21) {
+            20 => {
+                // a discretionary whose replacement run ends in an explicit kern, then glue
+                let prel: Vec<i64> = (0..rng.range(0, 2)).map(|_| rng.range(0, 2) * u).collect();
+                let postl: Vec<i64> = (0..rng.range(0, 1)).map(|_| rng.range(0, 2) * u).collect();
+                items.push(dc(&prel, &postl, 2));
+                items.push(bx(rng.range(1, 4) * u));
+                items.push(kx(rng.range(0, 2) * u));
+                items.push(mk_glue(rng));
+                breaks += 3;
+            }
+            0..=9 => {
+                items.push(mk_glue(rng));
+                breaks += 1;
+            }
+            10 | 11 => {
+                items.push(pn(*rng.pick(&pen_pool)));
+                items.push(mk_glue(rng));
+                breaks += 1;
+            }
+            12 => {
+                items.push(mk_glue(rng));
+                items.push(pn(*rng.pick(&pen_pool)));
+                items.push(mk_glue(rng));
+                breaks += 2;
+            }
+            13 => {
+                items.push(kx(rng.range(if neg { -1 } else { 0 }, 3) * u));
+                items.push(mk_glue(rng));
+                breaks += 1;
+            }
+            14 => {
+                items.push(mk_glue(rng));
+                items.push(mk_glue(rng));
+                breaks += 1;
+            }
+            15 => {
+                items.push(mk_glue(rng));
+                items.push(kx(rng.range(0, 2) * u));
+                items.push(mk_glue(rng));
+                breaks += 2;
+            }
+            16 => {
+                // a discretionary with nothing after the break, followed by glue
+                let prel: Vec<i64> = (0..rng.range(0, 1)).map(|_| rng.range(0, 2) * u).collect();
+                items.push(dc(&prel, &[], 0));
+                items.push(mk_glue(rng));
+                breaks += 2;
+            }
+            17 => {
+                let mut k = kf(rng.range(0, 1) * u);
+                k.as_object_mut().unwrap().insert("kk".into(), json!(*rng.pick(&["normal", "accent"])));
+                items.push(k);
+                items.push(mk_glue(rng));
+                breaks += 1;
+            }
+            18 => {
+                items.push(pn(-10000));
+                if rng.chance(1, 2) {
+                    items.push(mk_glue(rng));
+                }
+                breaks += 1;
+            }
+            _ => {
+                items.push(pn(*rng.pick(&pen_pool)));
+                breaks += 1;
+            }
+        }
+        if breaks + 2 > max_breaks {
+            break;
+        }
+    }
+    // the end of the paragraph; with looseness the last line more often has finite glue, so that
+    // several final nodes with the same number of lines (different fitness classes) compete
+    let loose = *rng.pick(&[0i64, 0, 0, 0, 0, 0, 1, -1, 2, -2, 1, -1]);
+    let tail_kind = if loose != 0 && rng.chance(1, 2) { 7 + rng.below(2) } else { rng.below(10) };
+    match tail_kind {
+        0..=6 => {
+            items.push(pn(10000));
+            items.push(gl(0, u.max(1), 1, 0)); // \parfillskip
+        }
+        7 => {}
+        8 => {
+            items.push(pn(10000));
+            items.push(gl(0, rng.range(0, 6) * u, 0, 0)); // a finite \parfillskip
+        }
+        _ => {
+            items.push(pn(*rng.pick(&pen_pool)));
+            items.push(gl(0, u.max(1), 1, 0));
+        }
+    }
+    // make discretionary replacement runs well formed
+    for a in 0..items.len() {
+        if items[a]["k"] == "disc" {
+            let mut rep = i(&items[a], "rep") as usize;
+            while rep > 0 && !(a + rep < items.len() && (a + 1..=a + rep).all(|j| replaceable(&items[j]))) {
+                rep -= 1;
+            }
+            items[a].as_object_mut().unwrap().insert("rep".into(), json!(rep));
+        }
+    }
+    // one instance in four has "fine" dimensions: every width, stretch and shrink is moved off the
+    // multiples of the unit, so that stretch and shrink ratios are dense (badness values near the
+    // fitness and tolerance thresholds occur)
+    let fine = u >= 100 && rng.chance(1, 2) || u >= 7 && rng.chance(1, 8);
+    if fine {
+        let j = (u / 12).max(1);
+        for it in items.iter_mut() {
+            let m = it.as_object_mut().unwrap();
+            for key in ["w", "st", "sh"] {
+                if let Some(x) = m.get(key).and_then(|x| x.as_i64()) {
+                    if x != 0 && !(key == "st" && m.get("sto").and_then(|o| o.as_i64()).unwrap_or(0) > 0) {
+                        let y = x + rng.range(-j, j);
+                        m.insert(key.into(), json!(if x > 0 { y.max(1) } else { y.min(-1) }));
+                    }
+                }
+            }
+        }
+    }
+    // natural width and line widths
+    let nat: i64 = items.iter().map(|it| if it["k"] == "box" || it["k"] == "glue" || it["k"] == "kern" { i(it, "w") } else { 0 }).sum();
+    let lines = rng.range(1, 5);
+    let fj = if fine { rng.range(-u / 3, u / 3) } else { 0 };
+    let base = (nat / lines).max(u) + rng.range(-2, 3) * u + fj;
+    let nw = *rng.pick(&[1usize, 1, 1, 2, 2, 3, 3, 4, 4, 5]);
+    let lw: Vec<i64> = (0..nw)
+        .map(|k| if k == 0 { base.max(1) } else { (base + rng.range(-3, 3) * u + if fine { rng.range(-u / 3, u / 3) } else { 0 }).max(1) })
+        .collect();
+    let tol = *rng.pick(&[10000i64, 10000, 10000, 10000, 10000, 200, 200, 200, 1000, 100, 50, 9999, 10001, 20000, 0, -1, 13, 12, 99]);
+    let es = if rng.chance(1, 6) { rng.range(1, 5) * u } else { 0 };
+    let fin = rng.chance(1, 5);
+    let lp = *rng.pick(&[10i64, 10, 10, 10, 0, 100, -10, 1, 5000, 12000, 200]);
+    let hp = *rng.pick(&[50i64, 50, 50, 0, -50, 500, 10000, -10000, 9999, 1000]);
+    let ehp = *rng.pick(&[50i64, 50, 0, -50, 500, 10000, -10000, 30]);
+    let dhd = *rng.pick(&[10000i64, 10000, 0, -10000, 100000, 1000000, 5]);
+    let fhd = *rng.pick(&[5000i64, 5000, 0, -5000, 100000, 1000000, 7]);
+    let adj = *rng.pick(&[10000i64, 10000, 10000, 0, -10000, 5, 100000, 50, 1000, 1000000]);
+    let skip = |rng: &mut Rng| {
+        if rng.chance(3, 4) {
+            zero_glue()
+        } else {
+            let sto = if rng.chance(1, 3) { 1 } else { 0 };
+            json!({"w": rng.range(0, 2) * u, "st": rng.range(0, 4) * u, "sto": sto, "sh": rng.range(0, 1) * u, "sho": 0})
+        }
+    };
+    let (ls, rs) = (skip(rng), skip(rng));
+    let mut v = json!({"items": items, "lw": lw, "tol": tol, "es": es, "final": fin, "ls": ls, "rs": rs,
+        "lp": lp, "hp": hp, "ehp": ehp, "dhd": dhd, "fhd": fhd, "adj": adj, "loose": loose});
+    resolve(&mut v);
+    v
+}
+
+fn random(args: &Args) -> i32 {
+    quiet_panics();
+    let seed: u64 = args.num("seed", 1);
+    let n: u64 = args.num("n", 1000);
+    let max_breaks: usize = args.num("breaks", 8);
+    let mut rng = Rng::new(seed ^ 0xC04);
+    let mut out = Out::new(args.str("out"));
+    let mut st = Stats::default();
+    let mut tries = 0u64;
+    while st.n < n && tries < 20 * n {
+        tries += 1;
+        let inst = gen_instance(&mut rng, max_breaks);
+        if !st.fresh(&inst) {
+            continue;
+        }
+        let ev = run_instance(&inst);
+        st.add(&ev);
+        out.line(&ev);
+    }
+    out.flush();
+    st.write(args, &format!("random seed={seed} breaks<={max_breaks}"));
+    eprintln!("c04-rand: {} events, {} solved, {} non-trivial, {} panics", st.n, st.solved, st.nontrivial, st.panics);
+    0
+}
+
+/// Re-run recorded events (`in=` ndjson of events or instance descriptions) on the real breaker.
+fn replay(args: &Args) -> i32 {
+    quiet_panics();
+    let text = std::fs::read_to_string(args.req("in")).expect("read input");
+    let mut out = Out::new(args.str("out"));
+    for line in text.lines().filter(|l| !l.trim().is_empty()) {
+        let v: Value = serde_json::from_str(line).expect("json");
+        if v.get("fn").and_then(|x| x.as_str()) == Some("line") {
+            out.line(&v);
+            continue;
+        }
+        let mut inst = v.as_object().unwrap().clone();
+        for k in ["res", "log", "sel", "panic", "fn"] {
+            inst.remove(k);
+        }
+        let mut inst = Value::Object(inst);
+        resolve(&mut inst);
+        let ev = run_instance(&inst);
+        eprintln!("replayed: res={} panic={}", ev.get("res").unwrap_or(&Value::Null), ev.get("panic").unwrap_or(&Value::Null));
+        out.line(&ev);
+    }
+    out.flush();
+    0
+}
+
+// ------------------------------------------------------------------------------------------
+// golden paragraphs broken by real TeX
+// ------------------------------------------------------------------------------------------
+
+const GOLDEN_DIR: &str = concat!(env!("CARGO_MANIFEST_DIR"), "/../../repo/crates/boxworks-knuthplass/testdata");
+const CMR10: &[u8] = include_bytes!(concat!(
+    env!("CARGO_MANIFEST_DIR"),
+    "/../../repo/crates/tfm/corpus/computer-modern/cmr10.tfm"
+));
+
+struct Golden {
+    name: &'static str,
+    input: &'static str,
+    widths: &'static [&'static str],
+    log: &'static str,
+    set: fn(&mut kp::Params, &mut boxworks_text::Params),
+}
+
+fn pt(s: &str) -> Scaled {
+    Scaled::parse_from_string(s).unwrap()
+}
+
+fn ragged(t: &mut boxworks_text::Params) {
+    t.space_skip = common::Glue { width: pt("3.33298pt"), ..Default::default() };
+    t.extra_space_skip = common::Glue { width: pt("5.0pt"), ..Default::default() };
+}
+
+/// The table of crates/boxworks-knuthplass/src/lib.rs `tests!` (every test that has a log file).
+fn golden_table() -> Vec<Golden> {
+    macro_rules! g {
+        ($name:expr, $input:expr, $widths:expr, $log:expr, $set:expr) => {
+            Golden { name: $name, input: $input, widths: $widths, log: $log, set: $set }
+        };
+    }
+    vec![
+        g!("wolf_hall_5in", "wolf_hall_input.txt", &["5in"], "wolf_hall_5in_log.txt", |_, _| {}),
+        g!("wolf_hall_3in", "wolf_hall_input.txt", &["3in"], "wolf_hall_3in_log.txt", |_, _| {}),
+        g!("wolf_hall_2in", "wolf_hall_input.txt", &["2in"], "wolf_hall_2in_log.txt", |_, _| {}),
+        g!("wolf_hall_1in", "wolf_hall_input.txt", &["1in"], "wolf_hall_1in_log.txt", |_, _| {}),
+        g!("wolf_hall_emergency_stretch", "wolf_hall_input.txt", &["1in"], "wolf_hall_emergency_stretch_log.txt",
+           |p, _| p.emergency_stretch = pt("10.0pt")),
+        g!("wolf_hall_emergency_stretch_2", "wolf_hall_input.txt", &["3in"], "wolf_hall_emergency_stretch_2_log.txt",
+           |p, _| p.emergency_stretch = pt("10.0pt")),
+        g!("wolf_hall_variable_widths", "wolf_hall_input.txt", &["5in", "4in", "3in", "4in"],
+           "wolf_hall_variable_widths_log.txt", |_, _| {}),
+        g!("farewell_to_arms_looseness_plus_1", "farewell_to_arms_input.txt", &["3in"],
+           "farewell_to_arms_looseness_plus_1_log.txt", |p, _| p.looseness = 1),
+        g!("farewell_to_arms_looseness_minus_1", "farewell_to_arms_input.txt", &["5in"],
+           "farewell_to_arms_looseness_minus_1_log.txt", |p, _| p.looseness = -1),
+        g!("wolf_hall_ragged_right", "wolf_hall_input.txt", &["5in"], "wolf_hall_ragged_right_log.txt", |p, t| {
+            ragged(t);
+            p.right_skip = common::Glue { stretch: pt("20.00003pt"), ..Default::default() };
+        }),
+        g!("wolf_hall_adj_demerits", "wolf_hall_input.txt", &["3in"], "wolf_hall_adj_demerits_log.txt",
+           |p, _| p.adj_demerits = -10000),
+        g!("wolf_hall_broken_penalty", "wolf_hall_input.txt", &["3in"], "wolf_hall_broken_penalty_log.txt",
+           |p, _| p.broken_penalty = 500),
+        g!("wolf_hall_club_penalty", "wolf_hall_input.txt", &["3in"], "wolf_hall_club_penalty_log.txt",
+           |p, _| p.club_penalty = 1000),
+        g!("wolf_hall_double_hyphen_demerits", "wolf_hall_input.txt", &["3in"],
+           "wolf_hall_double_hyphen_demerits_log.txt", |p, _| p.double_hyphen_demerits = -100000),
+        g!("wolf_hall_stone_eyed", "wolf_hall_stone_eyed_input.txt", &["3in"], "wolf_hall_stone_eyed_log.txt", |_, _| {}),
+        g!("wolf_hall_ex_hyphen_penalty", "wolf_hall_stone_eyed_input.txt", &["3in"],
+           "wolf_hall_ex_hyphen_penalty_log.txt", |p, _| p.ex_hyphen_penalty = -10000),
+        g!("wolf_hall_final_hyphen_demerits", "wolf_hall_input.txt", &["3in"],
+           "wolf_hall_final_hyphen_demerits_log.txt", |p, _| p.final_hyphen_demerits = 0),
+        g!("wolf_hall_final_widow_penalty", "wolf_hall_input.txt", &["3in"], "wolf_hall_final_widow_penalty_log.txt",
+           |p, _| p.final_widow_penalty = 1000),
+        g!("wolf_hall_hyphen_penalty", "wolf_hall_input.txt", &["3in"], "wolf_hall_hyphen_penalty_log.txt",
+           |p, _| p.hyphen_penalty = 10000),
+        g!("wolf_hall_inter_line_penalty", "wolf_hall_input.txt", &["3in"], "wolf_hall_inter_line_penalty_log.txt",
+           |p, _| p.inter_line_penalty = 100),
+        g!("wolf_hall_left_skip", "wolf_hall_input.txt", &["3in"], "wolf_hall_left_skip_log.txt",
+           |p, _| p.left_skip = common::Glue { width: pt("20.0pt"), ..Default::default() }),
+        g!("wolf_hall_line_penalty", "wolf_hall_input.txt", &["3in"], "wolf_hall_line_penalty_log.txt",
+           |p, _| p.line_penalty = 100),
+        g!("wolf_hall_par_fill_skip", "wolf_hall_input.txt", &["3in"], "wolf_hall_par_fill_skip_log.txt",
+           |p, _| p.par_fill_skip = common::Glue::ZERO),
+        g!("wolf_hall_pre_tolerance", "wolf_hall_input.txt", &["3in"], "wolf_hall_pre_tolerance_log.txt",
+           |p, _| p.pre_tolerance = 10000),
+        g!("wolf_hall_right_skip", "wolf_hall_input.txt", &["3in"], "wolf_hall_right_skip_log.txt",
+           |p, _| p.right_skip = common::Glue { stretch: pt("20.00003pt"), ..Default::default() }),
+        g!("wolf_hall_tolerance", "wolf_hall_input.txt", &["3in"], "wolf_hall_tolerance_log.txt", |p, _| p.tolerance = 45),
+        g!("alice_paragraph_1_10in", "alice_paragraph_1.txt", &["10in"], "alice_paragraph_1_log.txt", |_, _| {}),
+        g!("alice_paragraph_2_10in", "alice_paragraph_2.txt", &["10in"], "alice_paragraph_2_log.txt", |_, _| {}),
+    ]
+}
+
+/// What the breaker's logger reports, with the list each pass ran on.
+#[derive(Default)]
+struct GoldenRecorder {
+    passes: Vec<(u8, Vec<ds::Horizontal>, Vec<Value>)>,
+    elem: usize,
+}
+
+impl kp::debug::Logger for GoldenRecorder {
+    fn log_attempt(&mut self, attempt: kp::debug::Attempt) {
+        self.passes.push((attempt.number(), vec![], vec![]));
+    }
+    fn log_feasible_breakpoint(&mut self, list: &[ds::Horizontal], fb: kp::debug::FeasibleBreakpoint) {
+        self.elem = fb.elem_index;
+        let p = self.passes.last_mut().unwrap();
+        if p.1.is_empty() {
+            p.1 = list.to_vec();
+        }
+        p.2.push(json!({"t": "fb", "i": fb.elem_index, "b": fb.badness, "p": fb.penalty, "d": fb.demerits,
+            "prev": fb.previous_node_index, "art": fb.artificial_demerits}));
+    }
+    fn log_new_active_node(&mut self, an: kp::debug::NewActiveNode) {
+        let p = self.passes.last_mut().unwrap();
+        p.2.push(json!({"t": "an", "i": self.elem, "n": an.node_index, "ln": an.line_number, "fc": an.fitness_class,
+            "hy": an.hyphenated, "td": an.total_demerits, "prev": an.previous_node_index}));
+    }
+}
+
+/// The items of a real list as the specification reads them.
+fn describe(list: &[ds::Horizontal], fonts: &dyn Fn(char, u32) -> i32) -> Option<Vec<Value>> {
+    let elem_w = |e: &ds::DiscretionaryElem| -> i64 {
+        use ds::DiscretionaryElem::*;
+        (match e {
+            Char(c) => fonts(c.char, c.font),
+            Ligature(l) => fonts(l.char, l.font),
+            HBox(b) => b.width.0,
+            VBox(b) => b.width.0,
+            Rule(r) => r.width.0,
+            Kern(k) => k.width.0,
+        }) as i64
+    };
+    let mut v = vec![];
+    for e in list {
+        use ds::Horizontal::*;
+        v.push(match e {
+            Char(c) => bx(fonts(c.char, c.font) as i64),
+            Ligature(l) => bx(fonts(l.char, l.font) as i64),
+            HBox(b) => bx(b.width.0 as i64),
+            VBox(b) => bx(b.width.0 as i64),
+            Rule(r) => bx(r.width.0 as i64),
+            Kern(k) => json!({"k": "kern", "w": k.width.0, "x": if k.kind == ds::KernKind::Explicit { 1 } else { 0 }}),
+            Glue(g) => {
+                let mut j = glue_json(&g.value);
+                j.as_object_mut().unwrap().insert("k".into(), json!("glue"));
+                j
+            }
+            Penalty(p) => pn(p.0 as i64),
+            Discretionary(d) => json!({"k": "disc",
+                "pre": d.pre_break.iter().map(elem_w).sum::<i64>(), "npre": d.pre_break.len(),
+                "post": d.post_break.iter().map(elem_w).sum::<i64>(), "npost": d.post_break.len(),
+                "rep": d.replace_count}),
+            _ => return None,
+        });
+    }
+    Some(v)
+}
+
+/// One line of TeX's trace.
+enum TexLine {
+    Pass(u8),
+    Via { prev: i64, b: i64, p: i64, d: i64 },
+    Node { n: i64, ln: i64, fit: i64, hy: bool, t: i64, prev: i64 },
+}
+
+fn parse_tex_log(text: &str) -> Vec<TexLine> {
+    let mut v = vec![];
+    let star = |s: &str| if s == "*" { -1 } else { s.parse::<i64>().unwrap() };
+    for line in text.lines().map(|l| l.trim()) {
+        if line.starts_with("@firstpass") {
+            v.push(TexLine::Pass(1));
+        } else if line.starts_with("@secondpass") {
+            v.push(TexLine::Pass(2));
+        } else if line.starts_with("@emergencypass") {
+            v.push(TexLine::Pass(3));
+        } else if line.starts_with("@@") {
+            // @@7: line 3.2- t=1665 -> @@4
+            let rest = &line[2..];
+            let (n, rest) = rest.split_once(": line ").unwrap();
+            let (lf, rest) = rest.split_once(" t=").unwrap();
+            let (t, prev) = rest.split_once(" -> @@").unwrap();
+            let hy = lf.ends_with('-');
+            let lf = lf.trim_end_matches('-');
+            let (ln, fit) = lf.split_once('.').unwrap();
+            v.push(TexLine::Node { n: n.parse().unwrap(), ln: ln.parse().unwrap(), fit: fit.parse().unwrap(), hy,
+                t: t.parse().unwrap(), prev: prev.parse().unwrap() });
+        } else if line.starts_with('@') && line.contains(" via @@") {
+            // @ via @@0 b=28 p=0 d=1444      @\discretionary via @@1 b=* p=50 d=*     @\par via ..
+            let (_, rest) = line.split_once(" via @@").unwrap();
+            let mut it = rest.split(' ');
+            let prev = it.next().unwrap().parse().unwrap();
+            let b = star(it.next().unwrap().strip_prefix("b=").unwrap());
+            let p = it.next().unwrap().strip_prefix("p=").unwrap().parse().unwrap();
+            let d = star(it.next().unwrap().strip_prefix("d=").unwrap());
+            v.push(TexLine::Via { prev, b, p, d });
+        }
+    }
+    v
+}
+
+fn goldens(args: &Args) -> i32 {
+    quiet_panics();
+    let mut out = Out::new(args.str("out"));
+    let dir = args.str("dir").unwrap_or(GOLDEN_DIR);
+    let only = args.str("only");
+    let stride: usize = args.num("stride", 1);
+    let (mut files, mut misaligned, mut lines, mut emitted) = (0u64, vec![], 0u64, 0u64);
+    for g in golden_table() {
+        if let Some(o) = only {
+            if !g.name.contains(o) {
+                continue;
+            }
+        }
+        let (Ok(input), Ok(texlog)) = (std::fs::read_to_string(format!("{dir}/{}", g.input)), std::fs::read_to_string(format!("{dir}/{}", g.log))) else {
+            misaligned.push(format!("{}: golden files missing", g.name));
+            continue;
+        };
+        files += 1;
+        let mut params = kp::Params::plain_tex_defaults();
+        let mut tparams = boxworks_text::Params::plain_tex_defaults();
+        (g.set)(&mut params, &mut tparams);
+        // the list, as the repository's own tests build it
+        let mut tfm_file = tfm::File::deserialize(CMR10).0.expect("cmr10.tfm deserializes");
+        let program = tfm::ligkern::CompiledProgram::compile_from_tfm_file(&mut tfm_file).0;
+        let mut tp = boxworks_text::TextPreprocessorImpl::new(tparams);
+        tp.register_font(0, &tfm_file, program.clone());
+        tp.activate_font(0);
+        let mut list = vec![];
+        {
+            use boxworks::TextPreprocessor;
+            for word in input.split_ascii_whitespace() {
+                tp.add_word(word.trim_matches(' '), &mut list);
+                tp.add_space(&mut list);
+            }
+        }
+        let mut repo: boxworks_text::TfmFontRepo = Default::default();
+        repo.register_font(0, tfm_file);
+        let widths: Vec<Scaled> = g.widths.iter().map(|w| pt(w)).collect();
+        let hyphenator = boxworks_hyphenate::Hyphenator::plain_tex_en_us(program);
+        let mut rec = GoldenRecorder::default();
+        let r = {
+            let lb = kp::LineBreaker {
+                params: &params,
+                line_widths: &widths,
+                line_indents: &[],
+                debug_logger: Some(&mut rec),
+                hyphenator: &hyphenator,
+            };
+            let mut vlist = vec![];
+            use boxworks::LineBreaker;
+            catch(|| lb.break_line(&repo, &mut vlist, &mut list))
+        };
+        if let Err((f, m)) = r {
+            misaligned.push(format!("{}: break_line panicked at {f}: {m}", g.name));
+            continue;
+        }
+        // align the logger's report with TeX's trace: same passes, same sequence of via / node lines
+        let tex = parse_tex_log(&texlog);
+        let mut ours: Vec<(u8, usize, Option<&Value>)> = vec![]; // (pass, pass index, record)
+        for (pi, (num, _, recs)) in rec.passes.iter().enumerate() {
+            ours.push((*num, pi, None));
+            for r in recs {
+                ours.push((*num, pi, Some(r)));
+            }
+        }
+        let aligned = ours.len() == tex.len()
+            && ours.iter().zip(tex.iter()).all(|(o, t)| match (o.2, t) {
+                (None, TexLine::Pass(n)) => o.0 == *n,
+                (Some(r), TexLine::Via { prev, p, .. }) => r["t"] == "fb" && r["prev"] == *prev && r["p"] == *p,
+                (Some(r), TexLine::Node { n, prev, .. }) => r["t"] == "an" && r["n"] == *n && r["prev"] == *prev,
+                _ => false,
+            });
+        if !aligned {
+            misaligned.push(format!("{}: the breaker's log has {} lines, TeX's has {}", g.name, ours.len(), tex.len()));
+            continue;
+        }
+        let fw = |c: char, f: u32| repo.width(c, f).map(|s| s.0).unwrap_or(0);
+        // nodes of the current pass: n -> (elem, ln, fit, total) from TeX's own lines
+        let mut nodes: HashMap<i64, (i64, i64, i64, i64)> = HashMap::new();
+        let mut k = 0usize;
+        while k < ours.len() {
+            let (num, pi, r) = ours[k];
+            let Some(r) = r else {
+                nodes.clear();
+                nodes.insert(0, (-1, 0, 2, 0));
+                k += 1;
+                continue;
+            };
+            if let TexLine::Node { n, ln, fit, t, .. } = &tex[k] {
+                nodes.insert(*n, (r["i"].as_i64().unwrap(), *ln, *fit, *t));
+                k += 1;
+                continue;
+            }
+            let TexLine::Via { prev, b, p, d } = &tex[k] else { unreachable!() };
+            lines += 1;
+            // the node line (if any) that this via line produced: the next node lines of this break
+            // whose predecessor is `prev`
+            let (mut fit, mut t) = (-1i64, -1i64);
+            let mut j = k + 1;
+            while j < tex.len() {
+                match &tex[j] {
+                    TexLine::Via { .. } if ours[j].2.map(|x| x["i"] == r["i"]).unwrap_or(false) => {}
+                    TexLine::Node { prev: np, fit: nf, t: nt, .. } if ours[j].2.map(|x| x["i"] == r["i"]).unwrap_or(false) => {
+                        if np == prev && fit < 0 {
+                            fit = *nf;
+                            t = *nt;
+                        }
+                    }
+                    _ => break,
+                }
+                j += 1;
+            }
+            let (a_elem, a_ln, a_fit, a_total) = nodes[prev];
+            let full = &rec.passes[pi].1;
+            let b_elem = r["i"].as_u64().unwrap() as usize;
+            let last = b_elem >= full.len();
+            let from = if a_elem < 0 { 0 } else { a_elem as usize };
+            let to = if last { full.len() } else { b_elem + 1 };
+            if lines as usize % stride == 0 {
+                if let Some(items) = describe(&full[from..to], &fw) {
+                    let line_no = a_ln as usize; // 0-based index of this line
+                    let lw = widths.get(line_no).copied().unwrap_or(*widths.last().unwrap());
+                    let es = if num == 3 { params.emergency_stretch.0 } else { 0 };
+                    out.line(&json!({"fn": "line", "file": g.name, "pass": num, "items": items, "start": a_elem < 0,
+                        "last": last, "lw": lw.0, "pf": a_fit, "es": es,
+                        "ls": glue_json(&params.left_skip), "rs": glue_json(&params.right_skip),
+                        "lp": params.line_penalty, "hp": params.hyphen_penalty, "ehp": params.ex_hyphen_penalty,
+                        "dhd": params.double_hyphen_demerits, "fhd": params.final_hyphen_demerits,
+                        "adj": params.adj_demerits,
+                        "tex": {"b": b, "p": p, "d": d, "fit": fit, "t": t, "pt": a_total}}));
+                    emitted += 1;
+                }
+            }
+            k += 1;
+        }
+    }
+    out.flush();
+    if let Some(p) = args.str("stats") {
+        std::fs::write(p, json!({"golden_files": files, "misaligned": misaligned, "tex_lines": lines, "emitted": emitted}).to_string())
+            .expect("write stats");
+    }
+    eprintln!("c04-goldens: {files} files, {lines} feasible breaks in TeX's logs, {emitted} events, misaligned: {misaligned:?}");
+    0
 }
